@@ -5,7 +5,7 @@ From IV Require Import Base.Word Model.Alias Proofs.AliasProofs Model.AliasChain
 
 Lemma xcomp_eqb_eq a b : xcomp_eqb a b = true <-> a = b.
 Proof.
-  destruct a as [c| | | | | | | | |], b as [d| | | | | | | | |]; cbn [xcomp_eqb]; split; intro H;
+  destruct a as [c| | | | | | | | | | | |], b as [d| | | | | | | | | | | |]; cbn [xcomp_eqb]; split; intro H;
     try reflexivity; try discriminate.
   - apply comp_eqb_eq in H. subst. reflexivity.
   - inversion H; subst. apply comp_eqb_refl.
@@ -46,38 +46,51 @@ Definition member_safe (cfg : xconfig) (x : xcomp) (bufs : list xbuf) : Prop :=
 
 Definition is_shared (pa : parse) : bool := match pa with PShared => true | _ => false end.
 
-(* a chain is ok when every member is safe, or reads the cache through a private
-   copy (PSharedCopy) and NO member before it in this call parses the caller's
-   buffer in place into the cache.  [dirty] = some earlier member was PShared. *)
-Fixpoint chain_ok (cfg : xconfig) (dirty : bool) (cs : list xcomp) (bufs : list xbuf) : Prop :=
-  match cs with
-  | [] => True
-  | x :: r => (member_safe cfg x bufs \/ (par cfg x = PSharedCopy /\ dirty = false)) /\
-              chain_ok cfg (dirty || is_shared (par cfg x)) r bufs
+(* what is known about the attributes cache of the call so far *)
+Inductive cstate := CEmpty | CClean | CDirty.
+
+Definition cnext (st : cstate) (pa : parse) : cstate :=
+  match st, pa with
+  | CEmpty, PShared => CDirty        (* parsed the caller's buffer in place into the cache *)
+  | CEmpty, PSharedCopy => CClean    (* parsed a private copy into the cache *)
+  | _, _ => st
   end.
 
-Definition cache_clean (c : cache A) (bufs : list xbuf) : Prop := c = None \/ c = Some (copied A bufs).
+(* a chain is ok when every member is safe, or reads the cache through a private
+   copy (PSharedCopy) while the cache does not hold an in-place parse, or reads the
+   cache (PShared) after some member filled it from a private copy. *)
+Fixpoint chain_ok (cfg : xconfig) (st : cstate) (cs : list xcomp) (bufs : list xbuf) : Prop :=
+  match cs with
+  | [] => True
+  | x :: r => (member_safe cfg x bufs \/ (par cfg x = PSharedCopy /\ st <> CDirty) \/ (par cfg x = PShared /\ st = CClean)) /\
+              chain_ok cfg (cnext st (par cfg x)) r bufs
+  end.
 
-Lemma view_kept cfg x bufs dirty (c : cache A) :
-  (member_safe cfg x bufs \/ (par cfg x = PSharedCopy /\ dirty = false)) ->
-  (dirty = false -> cache_clean c bufs) ->
+Definition cache_inv (st : cstate) (c : cache A) (bufs : list xbuf) : Prop :=
+  match st with
+  | CEmpty => c = None
+  | CClean => c = Some (copied A bufs)
+  | CDirty => True
+  end.
+
+Lemma view_kept cfg x bufs st (c : cache A) :
+  (member_safe cfg x bufs \/ (par cfg x = PSharedCopy /\ st <> CDirty) \/ (par cfg x = PShared /\ st = CClean)) ->
+  cache_inv st c bufs ->
   xkeep A (ret cfg x) 0 bufs (fst (view A (par cfg x) c bufs)) = map Val (contents bufs).
 Proof.
-  intros [[Hp|Hn]|[Hp Hd]] Hc.
+  intros [[Hp|Hn]|[[Hp Hd]|[Hp Hd]]] Hc.
   - rewrite Hp. cbn [view fst]. apply xkeep_copied.
   - apply xkeep_noref. exact Hn.
-  - rewrite Hp. destruct (Hc Hd) as [->| ->]; cbn [view fst]; apply xkeep_copied.
+  - rewrite Hp. destruct st; cbn [cache_inv] in Hc; [subst c| subst c |exfalso; apply Hd; reflexivity];
+      cbn [view fst]; apply xkeep_copied.
+  - rewrite Hp. subst st. cbn [cache_inv] in Hc. subst c. cbn [view fst]. apply xkeep_copied.
 Qed.
 
-Lemma view_cache_clean pa dirty (c : cache A) bufs :
-  (dirty = false -> cache_clean c bufs) ->
-  (dirty || is_shared pa = false -> cache_clean (snd (view A pa c bufs)) bufs).
+Lemma view_cache_inv pa st (c : cache A) bufs :
+  cache_inv st c bufs -> cache_inv (cnext st pa) (snd (view A pa c bufs)) bufs.
 Proof.
-  intros Hc Hd. apply orb_false_iff in Hd. destruct Hd as [Hd Hs].
-  specialize (Hc Hd). destruct pa; cbn [is_shared] in Hs; try discriminate; cbn [view snd].
-  - exact Hc.
-  - exact Hc.
-  - destruct Hc as [->| ->]; cbn [snd]; [right|right]; reflexivity.
+  intro Hc. destruct st, pa; cbn [cnext cache_inv view snd] in *; try exact I; try exact Hc;
+    subst c; cbn [snd]; reflexivity.
 Qed.
 
 (* simulation: the concrete stores are the Val image of the specification's stores *)
@@ -90,24 +103,24 @@ Proof. unfold aparts, contents. rewrite map_map. reflexivity. Qed.
 Lemma aparts_snd bufs : map snd (aparts bufs) = sizes bufs.
 Proof. unfold aparts, sizes. rewrite map_map. reflexivity. Qed.
 
-Lemma chain_store_sim cfg bufs : forall cs dirty (c : cache A) s ss,
-  chain_ok cfg dirty cs bufs -> (dirty = false -> cache_clean c bufs) -> xsim s ss ->
+Lemma chain_store_sim cfg bufs : forall cs st (c : cache A) s ss,
+  chain_ok cfg st cs bufs -> cache_inv st c bufs -> xsim s ss ->
   xsim (chain_store A cfg cs bufs c s) (spec_chain A cfg cs (aparts bufs) ss).
 Proof.
-  induction cs as [|x r IH]; intros dirty c s ss Hok Hc Hs; [exact Hs|].
+  induction cs as [|x r IH]; intros st c s ss Hok Hc Hs; [exact Hs|].
   cbn [chain_store spec_chain]. rewrite aparts_snd. fold (sizes bufs).
   destruct (rejects (ret cfg x) 0 (sizes bufs)); [exact Hs|].
   destruct Hok as [Hx Hr].
-  pose proof (view_kept cfg x bufs dirty c Hx Hc) as Hk.
-  pose proof (view_cache_clean (par cfg x) dirty c bufs Hc) as Hc'.
+  pose proof (view_kept cfg x bufs st c Hx Hc) as Hk.
+  pose proof (view_cache_inv (par cfg x) st c bufs Hc) as Hc'.
   destruct (view A (par cfg x) c bufs) as [v c'] eqn:Ev. cbn [fst snd] in *.
-  apply (IH (dirty || is_shared (par cfg x))%bool c'); [exact Hr|exact Hc'|].
+  apply (IH (cnext st (par cfg x)) c'); [exact Hr|exact Hc'|].
   intro y. unfold xupd, xsupd. destruct (xcomp_eqb y x); [|apply Hs].
   rewrite map_app, <- Hs. cbn [map]. rewrite Hk, aparts_fst. reflexivity.
 Qed.
 
 Definition calls_ok (cfg : xconfig) (ops : list xop) : Prop :=
-  forall cs bufs, In (XCall cs bufs) ops -> chain_ok cfg false cs bufs.
+  forall cs bufs, In (XCall cs bufs) ops -> chain_ok cfg CEmpty cs bufs.
 
 Lemma calls_ok_tail cfg o ops : calls_ok cfg (o :: ops) -> calls_ok cfg ops.
 Proof. intros H cs bufs Hin. apply (H cs bufs). right; assumption. Qed.
@@ -139,7 +152,7 @@ Proof.
   destruct o as [cs bufs|l a|x k|x|x]; cbn [xabstract_op app]; rewrite ?xsrun_cons;
     cbn [xstep xsstep fst snd app].
   - apply IH; [assumption|]. cbn [xst]. fold (aparts bufs).
-    apply (chain_store_sim cfg bufs cs false None); [|left; reflexivity|exact Hs].
+    apply (chain_store_sim cfg bufs cs CEmpty None); [|reflexivity|exact Hs].
     apply (Hv cs bufs). left; reflexivity.
   - apply IH; [assumption|]. exact Hs.
   - rewrite (IH s ss Hv' Hs). f_equal. f_equal.
@@ -194,10 +207,10 @@ Qed.
 Definition all_members_safe (cfg : xconfig) (ops : list xop) : Prop :=
   forall cs bufs, In (XCall cs bufs) ops -> forall x, In x cs -> member_safe cfg x bufs.
 
-Lemma members_safe_chain_ok cfg bufs : forall cs dirty,
-  (forall x, In x cs -> member_safe cfg x bufs) -> chain_ok cfg dirty cs bufs.
+Lemma members_safe_chain_ok cfg bufs : forall cs st,
+  (forall x, In x cs -> member_safe cfg x bufs) -> chain_ok cfg st cs bufs.
 Proof.
-  induction cs as [|x r IH]; intros dirty H; [exact I|].
+  induction cs as [|x r IH]; intros st H; [exact I|].
   split; [left; apply H; left; reflexivity|]. apply IH. intros y Hy. apply H. right; exact Hy.
 Qed.
 
@@ -291,13 +304,17 @@ Definition xexception (x : xcomp) : bool :=
 
 (* the outgoing-RTCP dumper keeps the caller's packet objects: known finding, reported separately *)
 Definition xknown_alias (x : xcomp) : bool :=
-  match x with DumpSenderRtcp => true | _ => false end.
+  match x with DumpSenderRtcp | AttrLeakyBucket | AttrDumpSender => true | _ => false end.
+
+(* ... and of these, the roles about the caller's attributes map (reported under their own code) *)
+Definition xattr_role (x : xcomp) : bool :=
+  match x with AttrLeakyBucket | AttrPacing | AttrDumpSender => true | _ => false end.
 
 Lemma lib_has_ref_false x : xexception x = false -> xknown_alias x = false ->
   lib_par x <> PPrivate -> forall sz p, has_ref (lib_ret x) p sz = false.
 Proof.
   intros He Hk Hp sz. induction sz as [|n t IH]; intro p; [reflexivity|].
-  cbn [has_ref]. destruct x as [c| | | | | | | | |]; try discriminate; cbn [lib_ret]; try apply IH.
+  cbn [has_ref]. destruct x as [c| | | | | | | | | | | |]; try discriminate; cbn [lib_ret]; try apply IH.
   destruct c; try discriminate; cbn [lib_ret]; try apply IH;
     try (destruct ((Nat.eqb p payload_part) && (n >? pool_payload_len))%bool; apply IH).
   exfalso. apply Hp. reflexivity.
@@ -341,24 +358,29 @@ Definition seeded_a : xconfig :=
 
 Lemma seeded_a_par x : x <> Old DumpReceiverRtcp -> par seeded_a x = lib_par x.
 Proof.
-  intro H. destruct x as [c| | | | | | | | |]; try reflexivity.
+  intro H. destruct x as [c| | | | | | | | | | | |]; try reflexivity.
   destruct c; try reflexivity. exfalso. apply H. reflexivity.
 Qed.
 
 Definition no_inplace_parser (cs : list xcomp) : Prop := forall x, In x cs -> is_shared (lib_par x) = false.
 
-Lemma seeded_a_chain_ok {A} (bufs : list (xbuf A)) : forall cs,
+Lemma seeded_a_chain_ok {A} (bufs : list (xbuf A)) : forall cs st,
   (forall x, In x cs -> xexception x = false /\ xknown_alias x = false) -> no_inplace_parser cs ->
-  chain_ok A seeded_a false cs bufs.
+  st <> CDirty -> chain_ok A seeded_a st cs bufs.
 Proof.
-  induction cs as [|x r IH]; intros H Hn; [exact I|].
+  induction cs as [|x r IH]; intros st H Hn Hst; [exact I|].
   destruct (H x (or_introl eq_refl)) as [He Hk].
-  assert (Hr : chain_ok A seeded_a false r bufs).
-  { apply IH; [intros y Hy; apply H; right; exact Hy|intros y Hy; apply Hn; right; exact Hy]. }
+  assert (Hs : is_shared (par seeded_a x) = false).
+  { destruct (xcomp_eqb x (Old DumpReceiverRtcp)) eqn:E.
+    - apply xcomp_eqb_eq in E. subst x. reflexivity.
+    - rewrite seeded_a_par; [apply Hn; left; reflexivity|intro Hx; subst x; discriminate E]. }
+  assert (Hr : chain_ok A seeded_a (cnext st (par seeded_a x)) r bufs).
+  { apply IH; [intros y Hy; apply H; right; exact Hy|intros y Hy; apply Hn; right; exact Hy|].
+    destruct st, (par seeded_a x); cbn [cnext]; try discriminate; try exact Hst. }
   destruct (xcomp_eqb x (Old DumpReceiverRtcp)) eqn:E.
-  - apply xcomp_eqb_eq in E. subst x. split; [right; split; reflexivity|exact Hr].
+  - apply xcomp_eqb_eq in E. subst x. split; [right; left; split; [reflexivity|exact Hst]|exact Hr].
   - assert (Hne : x <> Old DumpReceiverRtcp) by (intro Hx; subst x; discriminate E).
-    cbn [chain_ok]. rewrite (seeded_a_par x Hne), (Hn x (or_introl eq_refl)). split; [|exact Hr].
+    split; [|exact Hr].
     left. destruct (lib_member_safe x bufs He Hk) as [Hp|Hf]; [left|right; exact Hf].
     rewrite (seeded_a_par x Hne). exact Hp.
 Qed.
@@ -369,7 +391,7 @@ Theorem seeded_a_invisible_without_inplace_parser {A} (ops : list (xop A)) :
   xoutputs A seeded_a ops = xoutputs A seeded_a (xstrip A ops).
 Proof.
   intros He Hn. apply chain_scribble_independent. intros cs bufs Hin.
-  apply seeded_a_chain_ok; [intros x Hx; apply (He cs bufs Hin x Hx)|apply (Hn cs bufs Hin)].
+  apply seeded_a_chain_ok; [intros x Hx; apply (He cs bufs Hin x Hx)|apply (Hn cs bufs Hin)|discriminate].
 Qed.
 
 Definition seeded_a_history {A} (a b : A) (n : Z) : list (xop A) :=
@@ -413,7 +435,7 @@ Proof.
   - apply xcomp_eqb_eq in E. subst x. right. apply seeded_b_has_ref_small.
     intros n Hn. unfold sizes in Hn. apply in_map_iff in Hn. destruct Hn as [b [<- Hb]]. apply Hs, Hb.
   - assert (Hr : forall p n, ret seeded_b x p n = lib_ret x p n).
-    { intros p n. destruct x as [c| | | | | | | | |]; try reflexivity. destruct c; try reflexivity. discriminate E. }
+    { intros p n. destruct x as [c| | | | | | | | | | | |]; try reflexivity. destruct c; try reflexivity. discriminate E. }
     destruct (lib_member_safe x bufs He Hk) as [Hp|Hf]; [left; exact Hp|right].
     rewrite <- Hf. generalize (sizes A bufs) 0%nat. intro sz. induction sz as [|n t IH]; intro p; [reflexivity|].
     cbn [has_ref]. rewrite Hr. cbn [lib_x ret]. destruct (lib_ret x p n); try reflexivity; apply IH.
